@@ -240,7 +240,23 @@ fn random_orchard_nf(r: &mut SubRng) -> OrchardNf {
     }
 }
 
+/// Foreign recipients come from a small fixed pool (deriving a fresh key per output is the most
+/// expensive part of block generation and adds nothing: the wallet cannot tell foreign keys apart).
+static FOREIGN: OnceLock<(Vec<sapling::PaymentAddress>, Vec<orchard::Address>)> = OnceLock::new();
+fn foreign_pool() -> &'static (Vec<sapling::PaymentAddress>, Vec<orchard::Address>) {
+    FOREIGN.get_or_init(|| {
+        let mut r = SubRng::new(0xF0E1);
+        ((0..8).map(|_| foreign_sapling_addr_fresh(&mut r)).collect(), (0..8).map(|_| foreign_orchard_addr_fresh(&mut r)).collect())
+    })
+}
 fn foreign_orchard_addr(r: &mut SubRng) -> orchard::Address {
+    foreign_pool().1[r.below(8) as usize]
+}
+fn foreign_sapling_addr(r: &mut SubRng) -> sapling::PaymentAddress {
+    foreign_pool().0[r.below(8) as usize]
+}
+
+fn foreign_orchard_addr_fresh(r: &mut SubRng) -> orchard::Address {
     loop {
         if let Some(sk) = Option::from(orchard::keys::SpendingKey::from_bytes(r.bytes32())) {
             let sk: orchard::keys::SpendingKey = sk;
@@ -249,7 +265,7 @@ fn foreign_orchard_addr(r: &mut SubRng) -> orchard::Address {
     }
 }
 
-fn foreign_sapling_addr(r: &mut SubRng) -> sapling::PaymentAddress {
+fn foreign_sapling_addr_fresh(r: &mut SubRng) -> sapling::PaymentAddress {
     let esk = sapling::zip32::ExtendedSpendingKey::master(&r.bytes32());
     esk.to_diversifiable_full_viewing_key().default_address().1
 }
